@@ -4,8 +4,9 @@ From Coq Require Import List NArith Bool.
 Import ListNotations.
 Open Scope N_scope.
 
-Definition ch := N.
-Definition str := list ch.
+(* notations (not definitions) so that terms mention only N and list N *)
+Notation ch := N (only parsing).
+Notation str := (list N) (only parsing).
 
 Definition LF : ch := 10.   Definition CR : ch := 13.   Definition TAB : ch := 9.
 Definition SP : ch := 32.   Definition BAR : ch := 124. Definition DASH : ch := 45.
